@@ -45,6 +45,10 @@ type c04Case struct {
 	Avg    uint64   `json:"avg,omitempty"`
 	Max    uint64   `json:"max,omitempty"`
 	Rows   []c04Row `json:"rows,omitempty"`
+	// encode: the Start fields of the chunks when they are NOT the running sum of the sizes (an Index
+	// assembled from other lists: concatenation, sub-range, zero / shuffled Starts); WriteTo has to go by the sizes
+	Starts    []uint64 `json:"starts,omitempty"`
+	StartsTag string   `json:"starts_kind,omitempty"`
 	// decode
 	FileHex   string `json:"file_hex,omitempty"`
 	Mut       string `json:"mutation,omitempty"`
@@ -73,11 +77,15 @@ func c04SetDigest(d string) {
 func c04BuildIndex(c *c04Case) desync.Index {
 	idx := desync.Index{Index: desync.FormatIndex{FeatureFlags: c.Flags, ChunkSizeMin: c.Min, ChunkSizeAvg: c.Avg, ChunkSizeMax: c.Max}}
 	var off uint64
-	for _, r := range c.Rows {
+	for i, r := range c.Rows {
 		var id desync.ChunkID
 		b, _ := hex.DecodeString(r.ID)
 		copy(id[:], b)
-		idx.Chunks = append(idx.Chunks, desync.IndexChunk{ID: id, Start: off, Size: r.Size})
+		start := off
+		if i < len(c.Starts) {
+			start = c.Starts[i]
+		}
+		idx.Chunks = append(idx.Chunks, desync.IndexChunk{ID: id, Start: start, Size: r.Size})
 		off += r.Size
 	}
 	return idx
@@ -256,7 +264,11 @@ func c04RowsArg(c *c04Case) string {
 		if i > 0 {
 			sb.WriteByte(',')
 		}
-		fmt.Fprintf(&sb, "%s:%d:%d", r.ID, off, r.Size)
+		start := off
+		if i < len(c.Starts) {
+			start = c.Starts[i] // the model's encode_index must not look at it either
+		}
+		fmt.Fprintf(&sb, "%s:%d:%d", r.ID, start, r.Size)
 		off += r.Size
 	}
 	return sb.String()
@@ -282,7 +294,10 @@ func c04Encode(a vh.Args, o *vh.Oracle, r *vh.Result, c *c04Case) ([]byte, error
 	file := buf.Bytes()
 	flagOK := (c.Flags&c04SHA512Flag != 0) == (c.Digest != "sha256")
 	wf := c04WF(c)
-	r.Count(fmt.Sprintf("enc|%s|%d|%x|%d|%s", c.Digest, len(c.Rows), c.Flags, c.Max, c.RowsKey()), len(c.Rows) > 0)
+	r.Count(fmt.Sprintf("enc|%s|%d|%x|%d|%s|%s", c.Digest, len(c.Rows), c.Flags, c.Max, c.RowsKey(), c.StartsTag), len(c.Rows) > 0)
+	if c.StartsTag != "" {
+		r.Dist("encode-starts:" + c.StartsTag)
+	}
 	r.Dist("encode-rows:" + c04Bucket(len(c.Rows)))
 	r.Dist(fmt.Sprintf("encode-wf:%v", wf))
 	r.Dist("digest:" + c.Digest)
@@ -316,7 +331,7 @@ func c04Encode(a vh.Args, o *vh.Oracle, r *vh.Result, c *c04Case) ([]byte, error
 		for i, row := range c.Rows {
 			off += row.Size
 			if ref.Offsets[i] != off || hex.EncodeToString(ref.IDs[i]) != row.ID {
-				fail("layout-table-row", fmt.Sprintf("row %d: expected end offset %d", i, off))
+				fail("layout-table-row", fmt.Sprintf("row %d: end offset %d in the file, the sizes of rows 0..%d add up to %d%s", i, ref.Offsets[i], i, off, c.startsNote()))
 				break
 			}
 		}
@@ -326,8 +341,9 @@ func c04Encode(a vh.Args, o *vh.Oracle, r *vh.Result, c *c04Case) ([]byte, error
 	switch {
 	case wf && flagOK && rerr != nil:
 		fail("roundtrip-rejected", fmt.Sprintf("IndexFromReader rejects what WriteTo wrote: %v", rerr))
-	case wf && flagOK && c04IndexString(back) != c04IndexString(idx):
-		fail("roundtrip-differs", "IndexFromReader(WriteTo(i)) differs from i")
+	case wf && flagOK && c04IndexString(back) != c04IndexString(c04BuildIndex(&c04Case{Flags: c.Flags, Min: c.Min, Avg: c.Avg, Max: c.Max, Rows: c.Rows})):
+		// (ids and sizes as given, Start = sum of the preceding sizes)
+		fail("roundtrip-differs", "IndexFromReader(WriteTo(i)) does not have i's ids and sizes"+c.startsNote())
 	case !flagOK && rerr == nil:
 		fail("accepts-digest-mismatch", "index read back although its digest flag disagrees with desync.Digest")
 	}
@@ -343,6 +359,52 @@ func c04Encode(a vh.Args, o *vh.Oracle, r *vh.Result, c *c04Case) ([]byte, error
 		}
 	}
 	return file, nil
+}
+
+func (c *c04Case) startsNote() string {
+	if c.StartsTag == "" {
+		return ""
+	}
+	return " (Start fields: " + c.StartsTag + ")"
+}
+
+// c04StartVariants: the same rows with Start fields that are not the running sum of the sizes.
+func c04StartVariants(rng *vh.Rand, c *c04Case) []*c04Case {
+	n := len(c.Rows)
+	if n < 2 {
+		return nil
+	}
+	mk := func(tag string, starts []uint64) *c04Case {
+		v := *c
+		v.Starts, v.StartsTag = starts, tag
+		return &v
+	}
+	sum := make([]uint64, n)
+	var off uint64
+	for i, r := range c.Rows {
+		sum[i] = off
+		off += r.Size
+	}
+	zero := make([]uint64, n)
+	shifted := make([]uint64, n) // idx.Chunks[k:] of a longer index
+	concat := make([]uint64, n)  // two chunk lists appended: the second starts at 0 again
+	shuffled := append([]uint64{}, sum...)
+	random := make([]uint64, n)
+	base := uint64(1 + rng.Intn(1<<30))
+	half := 1 + rng.Intn(n-1)
+	for i := range sum {
+		shifted[i] = sum[i] + base
+		concat[i] = sum[i]
+		if i >= half {
+			concat[i] = sum[i] - sum[half]
+		}
+		random[i] = rng.U64()
+	}
+	for i := n - 1; i > 0; i-- {
+		j := rng.Intn(i + 1)
+		shuffled[i], shuffled[j] = shuffled[j], shuffled[i]
+	}
+	return []*c04Case{mk("all-zero", zero), mk("sub-range", shifted), mk("concatenation", concat), mk("shuffled", shuffled), mk("random", random)}
 }
 
 func (c *c04Case) RowsKey() string {
@@ -877,6 +939,13 @@ func runC04(a vh.Args, o *vh.Oracle, r *vh.Result) error {
 		if err := readJSON(a.Replay, &c); err != nil {
 			return err
 		}
+		if c.Kind == "overlap" {
+			var oc c04Overlap
+			if err := readJSON(a.Replay, &oc); err != nil {
+				return err
+			}
+			return c04RunOverlap(a, r, &oc)
+		}
 		if c.Kind == "retry" {
 			var rc c04Retry
 			if err := readJSON(a.Replay, &rc); err != nil {
@@ -921,11 +990,18 @@ func runC04(a vh.Args, o *vh.Oracle, r *vh.Result) error {
 		plan = append(plan, rng.Intn(300))
 	}
 	plan = append(plan, big...)
-	for _, nrows := range plan {
+	for pi, nrows := range plan {
 		c := c04GenIndex(rng, nrows)
 		file, err := c04Encode(a, o, r, c)
 		if err != nil {
 			return err
+		}
+		if nrows <= 200 && (a.Tier == "thorough" || pi%3 == 0) {
+			for _, v := range c04StartVariants(rng, c) {
+				if _, err := c04Encode(a, o, r, v); err != nil {
+					return err
+				}
+			}
 		}
 		if r.NFailures() > 0 && nrows > 3 {
 			// shrink: the same index cut to its first rows
@@ -992,6 +1068,9 @@ func runC04(a vh.Args, o *vh.Oracle, r *vh.Result) error {
 		return err
 	}
 	if err := c04Retries(a, r, rng); err != nil {
+		return err
+	}
+	if err := c04Overlaps(a, r, rng); err != nil {
 		return err
 	}
 	return c04CLI(a, o, r, rng)
